@@ -1011,7 +1011,7 @@ def stall_probe(ctx, quick, prop):
                 tf = c["tfail"] if k == 0 else None
                 jf = c["ifail"] if k == 0 else None
                 exp = list(range(c["N"]))
-                if c.get("submit_fail_at") is not None and k == 0:
+                if c.get("submit_fail_at") is not None and k == 0 and r.get("refused"):
                     if call["raised"] is None:
                         what = what or "the backend refused batch %d at dispatch (submit raised in the caller's thread) but the call returned %s" % (
                             c["submit_fail_at"], call["values"])
